@@ -299,7 +299,13 @@ class Gen:
             inbody = [s for s in cands if s in self.body]
             if inbody and self.r.random() < 0.8: cands = inbody
             self.open_sloops.remove(n)
-            if cands:
+            around = [x for x in self.ssinks if x in cands]
+            if around and self.r.random() < self.p.get("sends_around_loop", 0.0):
+                # the loop is closed onto a sink that is sent to before and after `loop_`, inside the defining transaction
+                t = self.r.choice(around)
+                L.append(f"send {t} {self.val()}"); L.append(f"sloopclose {n} {t}"); L.append(f"send {t} {self.val()}")
+                self.retaint(n, self.taint[t])
+            elif cands:
                 t = self.r.choice(cands); L.append(f"sloopclose {n} {t}")
                 self.retaint(n, self.taint[t])
             else:
@@ -309,7 +315,12 @@ class Gen:
             inbody = [c for c in cands if c in self.body]
             if inbody and self.r.random() < 0.8: cands = inbody
             self.open_cloops.remove(n)
-            if cands:
+            around = [x for x in self.csinks if x in cands]
+            if around and self.r.random() < self.p.get("sends_around_loop", 0.0):
+                t = self.r.choice(around)
+                L.append(f"send {t} {self.val()}"); L.append(f"cloopclose {n} {t}"); L.append(f"send {t} {self.val()}")
+                self.retaint(n, self.taint[t])
+            elif cands:
                 t = self.r.choice(cands); L.append(f"cloopclose {n} {t}")
                 self.retaint(n, self.taint[t])
             else:
@@ -367,6 +378,16 @@ class Gen:
 
     def val(self):
         a, b = self.p["values"]; return self.r.randint(a, b)
+
+    def gen_listenkill(self):
+        """a listener whose handler unlistens another listener that is visited later in the same transaction (it listens one map
+        further downstream): the victim must stay silent from that very transaction on"""
+        c = [s for s in self.streams if s not in self.dropped and not self.t(s)]
+        if not c: return
+        x = self.r.choice(c)
+        y = self.fresh("s"); self.lines.append(f"map {y} {x} {self.small()}"); self.add_stream(y, set())
+        lv = self.fresh("l"); self.lines.append(f"listen {lv} {y}"); self.listeners.append(lv)
+        lk = self.fresh("l"); self.lines.append(f"listenkill {lk} {x} {lv}"); self.listeners.append(lk)
 
     def gen_listen(self):
         x = self.r.choice([n for n in self.streams + self.cells if n not in self.dropped] or [None])
@@ -531,6 +552,7 @@ class Gen:
         if not (self.ssinks or self.csinks):
             n = self.fresh("s"); self.lines.insert(0, f"ssink {n}"); self.add_stream(n); self.ssinks.append(n)
         for _ in range(r.randint(*p["n_listen"])): self.gen_listen()
+        if r.random() < p.get("listenkills", 0.0): self.gen_listenkill()
         for _ in range(r.randint(*p["n_txn"])):
             if p.get("updlogs"):
                 # L-sched-api: the scheduler's update log of exactly this transaction
